@@ -1265,6 +1265,80 @@ example :
      lookup s1.live 0 = some { consumed := 3, ack := 3, paused := false } ∧ run Variant.fixed s1 (ignoreMessage s1 0 4) = s1) := by
   decide
 
+/-- the skeleton of `remoteReplicator.IsReady` as far as it touches positions (source order; `[returns]` =
+the branch ends in a return) -/
+theorem remote_handshake_tie :
+    Generated.C06.remoteHandshake =
+      ["assign:localReplicaIdx := r.ReplicaIndex()", "assign:nextReplicaIdx := remoteLastReplicaAckIdx + 1",
+       "if:nextReplicaIdx == localReplicaIdx [returns]", "assign:appendIdx := r.AppendIndex()",
+       "assign:smallestAckIdx := r.AckIndex()", "case:remoteLastReplicaAckIdx < smallestAckIdx [returns]",
+       "assign:needResetReplicaIdx := smallestAckIdx + 1", "call:r.ResetReplicaIndex(needResetReplicaIdx)",
+       "case:nextReplicaIdx > appendIdx", "call:r.ResetAppendIndex(nextReplicaIdx)",
+       "call:r.ResetReplicaIndex(nextReplicaIdx)", "call:r.SetAckIndex(remoteLastReplicaAckIdx)",
+       "assign:newLocalReplicaIdx := r.ReplicaIndex()", "if:newLocalReplicaIdx == nextReplicaIdx [returns]"] := by decide
+
+open LinVerif.FanOut.Glue in
+/-- The remote replicator's handshake, follower not ahead of the leader's log (rAck ≤ appended): whatever the
+follower answered, every operation issued lies inside the reset-free alphabet (the rewind targets the window,
+the acknowledgement is inside [ack, consumed] of that moment), the queue is untouched, and afterwards the group is
+at consumed = ack = max(ack, rAck) — the next index sent is the first unacknowledged one — unless the follower was
+already in step (then nothing is issued). -/
+theorem handshake_positions (v : Variant) (s : State) (hb : Base s) (ho : Order s) (g : Nat) (grp : Group)
+    (hl : lookup s.live g = some grp) (rAck : Int) (hr : rAck ≤ s.q.appended) :
+    Valid v (fun s o => o.okAt s) s (handshakeOps s g rAck) ∧
+    (run v s (handshakeOps s g rAck)).q = s.q ∧
+    (rAck + 1 = replicaIndex grp → run v s (handshakeOps s g rAck) = s) ∧
+    (rAck + 1 ≠ replicaIndex grp →
+      lookup (run v s (handshakeOps s g rAck)).live g =
+        some { grp with consumed := (if rAck < grp.ack then grp.ack else rAck), ack := (if rAck < grp.ack then grp.ack else rAck) }) := by
+  have hord := ho.live hb g grp hl
+  by_cases h1 : rAck + 1 = replicaIndex grp
+  · have hops : handshakeOps s g rAck = [] := by simp [handshakeOps, hl, h1]
+    rw [hops]
+    exact ⟨trivial, rfl, fun _ => rfl, fun h => absurd h1 h⟩
+  · by_cases h2 : rAck < grp.ack
+    · have hops : handshakeOps s g rAck = [resetReplicaIndex g (grp.ack + 1)] := by
+        simp [handshakeOps, hl, h1, ackIndex, h2]
+      rw [hops]
+      obtain ⟨hst, _, hok⟩ := reset_replica_index v s g grp (grp.ack + 1) hl
+      have e : grp.ack + 1 - 1 = grp.ack := by omega
+      rw [e] at hst
+      refine ⟨⟨hok.mpr ⟨by simp only [ackIndex]; omega, by simp only [appendIndex]; omega⟩, trivial⟩, ?_, fun h => absurd h h1, fun _ => ?_⟩
+      · simp only [run, hst]; rfl
+      · simp only [run, hst, h2, if_true]
+        rw [putGroup_live_self]
+    · have hops : handshakeOps s g rAck = [resetReplicaIndex g (rAck + 1), setAckIndex g rAck] := by
+        have : ¬ (rAck + 1 > appendIndex s.q) := by simp only [appendIndex]; omega
+        simp [handshakeOps, hl, h1, ackIndex, h2, this]
+      rw [hops]
+      obtain ⟨hst, _, hok⟩ := reset_replica_index v s g grp (rAck + 1) hl
+      have e : rAck + 1 - 1 = rAck := by omega
+      rw [e] at hst
+      have hl1 := putGroup_live_self s g { grp with consumed := rAck }
+      have hst2 := ack_inside v (s.putGroup g { grp with consumed := rAck }) g rAck { grp with consumed := rAck } hl1
+        ⟨by show grp.ack ≤ rAck; omega, by show rAck ≤ rAck; omega⟩
+      refine ⟨⟨hok.mpr ⟨by simp only [ackIndex]; omega, by simp only [appendIndex]; omega⟩, ?_, trivial⟩, ?_,
+        fun h => absurd h h1, fun _ => ?_⟩
+      · rw [hst]; exact trivial
+      · simp only [run, hst, setAckIndex, hst2]; rfl
+      · simp only [run, hst, setAckIndex, hst2, h2, if_false]
+        rw [putGroup_live_self]
+
+open LinVerif.FanOut.Glue in
+/-- the handshake with a follower AHEAD of the leader's log (rAck > appended: "leader's lost old wal data"): an
+explicit index reset to rAck, after which queue and group are at rAck / rAck — shapes by `decide`: a follower in
+step, one behind the acknowledged position, one inside the window, one ahead of the log -/
+example :
+    let s0 := run Variant.fixed State.init
+      ([.create 0] ++ List.replicate 8 (.append 5) ++ List.replicate 7 (.consume 0) ++ [.ack 0 2])
+    handshakeOps s0 0 6 = [] ∧
+    lookup (run Variant.fixed s0 (handshakeOps s0 0 0)).live 0 = some { consumed := 2, ack := 2, paused := false } ∧
+    lookup (run Variant.fixed s0 (handshakeOps s0 0 4)).live 0 = some { consumed := 4, ack := 4, paused := false } ∧
+    handshakeOps s0 0 11 = [resetAppendIndex 12, resetReplicaIndex 0 12, setAckIndex 0 11] ∧
+    lookup (run Variant.fixed s0 (handshakeOps s0 0 11)).live 0 = some { consumed := 11, ack := 11, paused := false } ∧
+    (run Variant.fixed s0 (handshakeOps s0 0 11)).q.appended = 11 ∧ (run Variant.fixed s0 (handshakeOps s0 0 11)).q.ack = 11 := by
+  decide
+
 /-! ## non-vacuity: the hypotheses are satisfied by non-trivial histories -/
 
 /-- decidable form of `Op.okAt` -/
